@@ -300,6 +300,10 @@ class Gen:
                     self.features.add('case')
             # the unique ids make results comparable row by row
             targets += [f'{al}.id AS id_{al}' for al, _ in scope]
+            if njoin and r.random() < 0.12:
+                # a bare star over the join (the order of ITS columns is the order of the tables as written), alone or after other items
+                targets = r.choice([['*'], targets[:1] + ['*'], [f'{scope[-1][0]}.*', f'{scope[0][0]}.*']])
+                self.features.add('star-over-join')
         s = 'SELECT ' + ('DISTINCT ' if distinct else '') + ', '.join(targets) + ' FROM ' + frm
         if distinct:
             self.features.add('distinct')
